@@ -439,6 +439,10 @@ pub fn parse_back_structures() -> Vec<String> {
     ] {
         v.push(f.to_string());
     }
+    // the C89 weekday number next to a full date, in every position
+    for f in ["%w %Y-%m-%d %H:%M:%S", "%Y-%m-%d %w %H:%M:%S.%f", "%Y-%m-%d %H:%M:%S %w", "%a %w, %d %b %Y %H:%M:%S", "%Y-%j %w %H:%M:%S"] {
+        v.push(f.to_string());
+    }
     // the two-digit year (judged for the years 2000-2099, where the text is defined)
     for f in ["%y-%m-%d %H:%M:%S", "%d/%m/%y %H:%M:%S.%f", "%a, %d %b %y %H:%M:%S", "%H:%M:%S %d.%m.%y"] {
         v.push(f.to_string());
